@@ -331,3 +331,419 @@ class CursorFn:
 def indent(txt, n=2):
     pad = ' ' * n
     return '\n'.join(pad + l if l else l for l in txt.split('\n'))
+
+
+# ---------------------------------------------------------------- in-place rewriting loops (canonicalize_newline, remove_backslash_newline)
+
+REWRITE_PREAMBLE = '''/-- `p[j] = v` on the array that holds a NUL-terminated text (`buf` = the bytes before the terminator); `none` = the store
+    is not inside the text (it would overwrite the terminator or lie outside the array) -/
+def storeAt (buf : List (BitVec 8)) (j : Nat) (v : BitVec 8) : Option (List (BitVec 8)) :=
+  if j < buf.length then some (buf.set j v) else none
+
+/-- `for (; n > 0; n--) p[j++] = v;` -/
+def fillAt (v : BitVec 8) : Nat → List (BitVec 8) → Nat → Option (List (BitVec 8))
+  | 0, buf, _ => some buf
+  | n + 1, buf, j =>
+    match storeAt buf j v with
+    | none => none
+    | some buf => fillAt v n buf (j + 1)
+
+/-- `p[j] = '\\\\0';` as the last statement: the text is what stands before index `j` -/
+def terminateAt (buf : List (BitVec 8)) (j : Nat) : Option (List (BitVec 8)) :=
+  if j ≤ buf.length then some (buf.take j) else none
+
+'''
+
+
+class RewriteFn(CursorFn):
+    """`static void f(char *p)` that rewrites the text in place through `int` index variables: reads `p[i]`, `p[i + k]`,
+    `p[i++]`; stores `p[j++] = e`; `for (; n > 0; n--) p[j++] = c;`; one `while (p[i])` loop; ends with `p[j] = '\\0';`.
+    Translated with the exact array semantics (the buffer is threaded through, a store outside the text is `none`), so the
+    Lean side proves — not assumes — that the writes stay behind the reads.  The index variables are `Nat` (files < 2 GiB)."""
+
+    def __init__(self, name, lean_name, index_vars):
+        super().__init__(name, lean_name, [], 'buffer', '', True, {})
+        self.index_vars = index_vars
+
+    def result_type(self):
+        return 'Option (List (BitVec 8))'
+
+    def nat(self, st, e):
+        """lean text of an index expression"""
+        if e[0] == 'num':
+            return str(e[1])
+        if e[0] == 'id' and st.env.get(e[1], (None, None))[1] == 'idx':
+            return st.env[e[1]][0]
+        if e[0] == 'bin' and e[1] == '+' and e[3][0] == 'num':
+            return f'{self.nat(st, e[2])} + {e[3][1]}'
+        raise ExtractError(f'{self.name}: index expression {e} not understood')
+
+    def emitter(self, st, effects):
+        fn = self
+
+        def index(e):
+            if e[0] == 'idx' and e[1] == ('id', 'p'):
+                ix = e[2]
+                if ix[0] == 'postinc' and ix[1][0] == 'id' and st.env.get(ix[1][1], (None, None))[1] == 'idx':
+                    if effects is None:
+                        raise ExtractError(f'{fn.name}: `p[i++]` inside a condition')
+                    v = ix[1][1]
+                    txt = f'byteAt buf ({st.env[v][0]})'
+                    st.env[v] = (f'{st.env[v][0]} + 1', 'idx')
+                    effects.append(v)
+                    return txt, 'char'
+                return f'byteAt buf ({fn.nat(st, ix)})', 'char'
+            raise ExtractError(f'{fn.name}: memory access {e} not understood')
+        return Emitter({}, index)
+
+    def cond(self, st, e):
+        if e[0] == 'bin' and e[1] in ('>', '<', '>=', '<=', '==', '!=') and e[2][0] == 'id' and st.env.get(e[2][1], (None, None))[1] == 'idx':
+            op = {'>': '>', '<': '<', '>=': '≥', '<=': '≤', '==': '=', '!=': '≠'}[e[1]]
+            return f'({st.env[e[2][1]][0]} {op} {self.nat(st, e[3])})'
+        return super().cond(st, e)
+
+    def byte_value(self, st, e, effects):
+        em = self.emitter(st, effects)
+        txt, ty = em.value_nopromote(e)
+        if ty in ('char', 'uchar'):
+            return txt
+        if cmini.WIDTH.get(ty) != 32:
+            raise ExtractError(f'{self.name}: stored value of type {ty}')
+        return f'({txt}).setWidth 8'
+
+    def run(self, stmts, st, loop=None):
+        if not stmts:
+            raise ExtractError(f'{self.name}: the function does not end with `p[j] = \'\\0\';`')
+        s, rest = stmts[0], stmts[1:]
+        k = s[0]
+        if k == '__state_continue__':
+            name, carried = loop
+            args = ' '.join(f'({st.env[v][0]})' for v in carried)
+            return f'{name} fuel buf {args}'
+        if k == 'decl' and s[1] == 'int' and s[2] in self.index_vars:
+            if s[3] is None or s[3][0] != 'num':
+                raise ExtractError(f'{self.name}: index variable {s[2]} without a literal initial value')
+            st.env[s[2]] = (str(s[3][1]), 'idx')
+            return self.run(rest, st, loop)
+        if k == 'expr':
+            e = s[1]
+            if e[0] in ('postinc', 'postdec', 'preinc', 'predec') and e[1][0] == 'id' and st.env.get(e[1][1], (None, None))[1] == 'idx':
+                v = e[1][1]
+                st.env[v] = (f'{st.env[v][0]} {"+" if "inc" in e[0] else "-"} 1', 'idx')
+                return self.run(rest, st, loop)
+            if e[0] == 'assign' and e[1] == '+=' and e[2][0] == 'id' and st.env.get(e[2][1], (None, None))[1] == 'idx' and e[3][0] == 'num':
+                v = e[2][1]
+                st.env[v] = (f'{st.env[v][0]} + {e[3][1]}', 'idx')
+                return self.run(rest, st, loop)
+            if e[0] == 'assign' and e[1] == '=' and e[2][0] == 'idx' and e[2][1] == ('id', 'p'):
+                ix = e[2][2]
+                if ix[0] == 'id' and e[3] == ('chr', 0):
+                    if rest:
+                        raise ExtractError(f'{self.name}: statements after the terminating store')
+                    if loop is not None:
+                        raise ExtractError(f'{self.name}: terminating store inside the loop')
+                    return f'terminateAt buf ({self.nat(st, ix)})'
+                if ix[0] == 'postinc' and ix[1][0] == 'id' and st.env.get(ix[1][1], (None, None))[1] == 'idx':
+                    j = ix[1][1]
+                    eff = []
+                    val = self.byte_value(st, e[3], eff)          # the right-hand side is read first (it never depends on `j`)
+                    if j in eff:
+                        raise ExtractError(f'{self.name}: `p[{j}++] = p[{j}++]`')
+                    jt = st.env[j][0]
+                    st.env[j] = (f'{jt} + 1', 'idx')
+                    body = self.run(rest, st, loop)
+                    return f'match storeAt buf ({jt}) ({val}) with\n| none => none\n| some buf =>\n{indent(body)}'
+            raise ExtractError(f'{self.name}: expression statement {e} not supported')
+        if k == 'for':
+            # the only inner loop of the subset: for (; n > 0; n--) p[j++] = c;
+            init, cnd, step, body = s[1], s[2], s[3], s[4]
+            b = unblock(body)
+            if (init is None and cnd is not None and cnd[0] == 'bin' and cnd[1] == '>' and cnd[2][0] == 'id' and cnd[3] == ('num', 0, '')
+                    and st.env.get(cnd[2][1], (None, None))[1] == 'idx' and step == ('postdec', cnd[2])
+                    and len(b) == 1 and b[0][0] == 'expr' and b[0][1][0] == 'assign' and b[0][1][1] == '='
+                    and b[0][1][2][0] == 'idx' and b[0][1][2][1] == ('id', 'p') and b[0][1][2][2][0] == 'postinc'
+                    and b[0][1][3][0] == 'chr'):
+                n = cnd[2][1]
+                j = b[0][1][2][2][1][1]
+                if st.env.get(j, (None, None))[1] != 'idx' or j == n:
+                    raise ExtractError(f'{self.name}: fill loop index {j}')
+                val = self.byte_value(st, b[0][1][3], [])
+                nt, jt = st.env[n][0], st.env[j][0]
+                st.env[j] = (f'{jt} + {nt}' if nt != '0' else jt, 'idx')
+                st.env[n] = ('0', 'idx')
+                body_txt = self.run(rest, st, loop)
+                return f'match fillAt ({val}) ({nt}) buf ({jt}) with\n| none => none\n| some buf =>\n{indent(body_txt)}'
+            raise ExtractError(f'{self.name}: inner loop {s} not understood')
+        if k == 'while':
+            if loop is not None:
+                raise ExtractError(f'{self.name}: nested while loops')
+            self.nloop += 1
+            lname = f'{self.lean_name}_loop{self.nloop}'
+            carried = [v for v in self.index_vars if v in st.env]
+            inner = State('', 0, {v: (v, 'idx') for v in carried})
+            self._step, self._cont = [], ('__state_continue__',)
+            c_txt = self.cond(inner, s[1])
+            body_txt = self.run(unblock(s[2]) + [('__state_continue__',)], inner.copy(), (lname, carried))
+            exit_txt = self.run(rest, inner.copy(), None)
+            pats = ''.join(f', {v}' for v in carried)
+            d = f'def {lname} : Nat → List (BitVec 8){" → Nat" * len(carried)} → Option (List (BitVec 8))\n'
+            d += f'  | 0, buf{pats} =>\n{indent(exit_txt, 4)}\n'
+            d += f'  | fuel + 1, buf{pats} =>\n    if {c_txt} then\n{indent(body_txt, 6)}\n    else\n{indent(exit_txt, 6)}\n'
+            self.loops.append(d)
+            args = ' '.join(f'({st.env[v][0]})' for v in carried)
+            return f'{lname} (buf.length + 1) buf {args}'
+        if k == 'block':
+            return self.run(list(s[1]) + rest, st, loop)
+        if k == 'if':
+            c = self.cond(st, s[1])
+            a = self.run(unblock(s[2]) + rest, st.copy(), loop)
+            b = self.run(unblock(s[3]) + rest, st.copy(), loop)
+            return f'if {c} then\n{indent(a)}\nelse\n{indent(b)}'
+        raise ExtractError(f'{self.name}: statement {k} not supported')
+
+    def translate(self, stmts, doc):
+        st = State('', 0, {})
+        body = self.run(list(stmts), st, None)
+        out = ''.join(d + '\n' for d in self.loops)
+        out += f'/-- {doc} -/\n'
+        out += f'def {self.lean_name} (buf : List (BitVec 8)) : Option (List (BitVec 8)) :=\n{indent(body)}\n'
+        return out
+
+
+def c_unescape(s):
+    """bytes of a C string literal body as cmini keeps it (escapes unprocessed); only the escapes used in the translated code"""
+    out = []
+    i = 0
+    while i < len(s):
+        if s[i] == '\\':
+            i += 1
+            m = {'\\': 92, '"': 34, 'n': 10, 't': 9, 'r': 13, '0': 0, "'": 39}
+            if i >= len(s) or s[i] not in m:
+                raise ExtractError(f'string literal escape \\{s[i:i+1]} not understood')
+            out.append(m[s[i]])
+        else:
+            if ord(s[i]) > 126:
+                raise ExtractError('non-ASCII string literal')
+            out.append(ord(s[i]))
+        i += 1
+    return out
+
+
+PTR_PREAMBLE = '''/-- `q += encode_utf8(q, c)`: the bytes are stored one after the other -/
+def storeList : List (BitVec 8) → List (BitVec 8) → Nat → Option (List (BitVec 8))
+  | [], buf, _ => some buf
+  | v :: vs, buf, j =>
+    match storeAt buf j v with
+    | none => none
+    | some buf => storeList vs buf (j + 1)
+
+'''
+
+
+class PtrRewriteFn(RewriteFn):
+    """like RewriteFn, for the pointer style of `convert_universal_chars`: `p` (read) and `q` (write) are positions in the same
+    array; `*p`, `p[k]`, `*p++`, `p += k`, `*q++ = e`, `q += encode_utf8(q, c)`, `startswith(p, "..")`,
+    `uint32_t c = read_universal_char(p + k, n)`; ends with `*q = '\\0';`."""
+
+    def pos(self, st, e):
+        if e[0] == 'id' and st.env.get(e[1], (None, None))[1] == 'idx':
+            return st.env[e[1]][0]
+        if e[0] == 'bin' and e[1] == '+' and e[3][0] == 'num':
+            return f'{self.pos(st, e[2])} + {e[3][1]}'
+        raise ExtractError(f'{self.name}: position {e} not understood')
+
+    def emitter(self, st, effects):
+        fn = self
+
+        def index(e):
+            if e[0] == 'un' and e[1] == '*' and e[2][0] == 'id' and st.env.get(e[2][1], (None, None))[1] == 'idx':
+                return f'byteAt buf ({st.env[e[2][1]][0]})', 'char'
+            if e[0] == 'un' and e[1] == '*' and e[2][0] == 'postinc' and e[2][1][0] == 'id' and st.env.get(e[2][1][1], (None, None))[1] == 'idx':
+                if effects is None:
+                    raise ExtractError(f'{fn.name}: `*p++` inside a condition')
+                v = e[2][1][1]
+                txt = f'byteAt buf ({st.env[v][0]})'
+                st.env[v] = (f'{st.env[v][0]} + 1', 'idx')
+                effects.append(v)
+                return txt, 'char'
+            if e[0] == 'idx' and e[1][0] == 'id' and st.env.get(e[1][1], (None, None))[1] == 'idx' and e[2][0] == 'num':
+                return f'byteAt buf ({st.env[e[1][1]][0]} + {e[2][1]})', 'char'
+            raise ExtractError(f'{fn.name}: memory access {e} not understood')
+        env = {k: v for k, v in st.env.items() if v[1] in cmini.WIDTH}
+        return Emitter(env, index)
+
+    def cond(self, st, e):
+        if e[0] == 'call' and e[1] == 'startswith' and len(e[2]) == 2 and e[2][1][0] == 'str':
+            base = self.pos(st, e[2][0])
+            bs = c_unescape(e[2][1][1])
+            if not bs or 0 in bs:
+                raise ExtractError(f'{self.name}: startswith pattern')
+            # strncmp(p, "..", n) == 0 with a pattern without NUL: the first n bytes are equal
+            return '(' + ' ∧ '.join(f'byteAt buf ({base} + {k}) = {b}#8' if k else f'byteAt buf ({base}) = {b}#8' for k, b in enumerate(bs)) + ')'
+        if e[0] == 'bin' and e[1] in ('&&', '||'):
+            return f'({self.cond(st, e[2])} {"∧" if e[1] == "&&" else "∨"} {self.cond(st, e[3])})'
+        return CursorFn.cond(self, st, e)
+
+    def run(self, stmts, st, loop=None):
+        if stmts:
+            s, rest = stmts[0], stmts[1:]
+            if s[0] == 'decl' and s[1] == 'char*' and s[2] in self.index_vars:
+                st.env[s[2]] = (self.pos(st, s[3]), 'idx')
+                return self.run(rest, st, loop)
+            if (s[0] == 'decl' and s[1] == 'uint32_t' and s[3] is not None and s[3][0] == 'call' and s[3][1] == 'read_universal_char'
+                    and len(s[3][2]) == 2 and s[3][2][1][0] == 'num'):
+                # bound by `let`: the value is computed once, from the array as it is *before* the following stores
+                val = f'readUniversalChar (buf.drop ({self.pos(st, s[3][2][0])})) {s[3][2][1][1]}'
+                st.env[s[2]] = (s[2], 'u32')
+                return f'let {s[2]} : BitVec 32 := {val}\n' + self.run(rest, st, loop)
+            if s[0] == 'expr':
+                e = s[1]
+                if e[0] == 'assign' and e[1] == '=' and e[2][0] == 'un' and e[2][1] == '*':
+                    tgt = e[2][2]
+                    if tgt[0] == 'id' and st.env.get(tgt[1], (None, None))[1] == 'idx' and e[3] == ('chr', 0):
+                        if rest or loop is not None:
+                            raise ExtractError(f'{self.name}: terminating store is not the last statement')
+                        return f'terminateAt buf ({st.env[tgt[1]][0]})'
+                    if tgt[0] == 'postinc' and tgt[1][0] == 'id' and st.env.get(tgt[1][1], (None, None))[1] == 'idx':
+                        j = tgt[1][1]
+                        eff = []
+                        val = self.byte_value(st, e[3], eff)
+                        if j in eff:
+                            raise ExtractError(f'{self.name}: `*{j}++ = *{j}++`')
+                        jt = st.env[j][0]
+                        st.env[j] = (f'{jt} + 1', 'idx')
+                        body = self.run(rest, st, loop)
+                        return f'match storeAt buf ({jt}) ({val}) with\n| none => none\n| some buf =>\n{indent(body)}'
+                if (e[0] == 'assign' and e[1] == '+=' and e[2][0] == 'id' and st.env.get(e[2][1], (None, None))[1] == 'idx'
+                        and e[3][0] == 'call' and e[3][1] == 'encode_utf8' and len(e[3][2]) == 2 and e[3][2][0] == e[2]
+                        and e[3][2][1][0] == 'id' and st.env.get(e[3][2][1][1], (None, None))[1] == 'u32'):
+                    j = e[2][1]
+                    c = st.env[e[3][2][1][1]][0]
+                    jt = st.env[j][0]
+                    st.env[j] = (f'{jt} + (encodeUtf8 {c}).length', 'idx')
+                    body = self.run(rest, st, loop)
+                    return f'match storeList (encodeUtf8 {c}) buf ({jt}) with\n| none => none\n| some buf =>\n{indent(body)}'
+        return super().run(stmts, st, loop)
+
+    def translate(self, stmts, doc):
+        st = State('', 0, {'p': ('0', 'idx')})
+        body = self.run(list(stmts), st, None)
+        out = ''.join(d + '\n' for d in self.loops)
+        out += f'/-- {doc} -/\n'
+        out += f'def {self.lean_name} (buf : List (BitVec 8)) : Option (List (BitVec 8)) :=\n{indent(body)}\n'
+        return out
+
+
+# ---------------------------------------------------------------- string / character literal readers
+
+READER_PREAMBLE = '''/-- libc `strchr(p + i, c)` for `c ≠ 0`: index of the first byte equal to `c` at or after `i`, `none` if the terminator comes
+    first; fuel: one unit per byte -/
+def strchrFrom (p : List (BitVec 8)) (c : BitVec 8) : Nat → Nat → Option Nat
+  | 0, _ => none
+  | fuel + 1, i => if i ≥ p.length then none else if byteAt p i = c then some i else strchrFrom p c fuel (i + 1)
+
+'''
+
+
+class ReaderBody:
+    """Statements of the literal readers that move the cursor `p` through calls with `&p` and append to a separate buffer:
+         buf[len++] = read_escaped_char(&p, p + 1);     buf[len++] = decode_utf8(&p, p);     buf[len++] = *p++;
+         uint32_t c = decode_utf8(&p, p);  c -= K;  buf[len++] = <expression over c>;
+         c = read_escaped_char(&p, p + 1);  c = decode_utf8(&p, p);           (read_char_literal)
+         if / else, continue.
+    The cursor is `cur` (lean text of a Nat), the appended units are the Lean list `acc` (reversed), `bits` is the width of
+    one element of `buf`.  `tail(cur, env)` produces the text for the end of the statement list."""
+
+    def __init__(self, fname, bits, decode_err, errors):
+        self.fname, self.bits, self.decode_err, self.errors = fname, bits, decode_err, errors
+
+    def emitter(self, cur, env):
+        def index(e):
+            if e == ('un', '*', ('id', 'p')):
+                return f'byteAt p ({cur})', 'char'
+            if e[0] == 'idx' and e[1] == ('id', 'p') and e[2][0] == 'num':
+                return f'byteAt p ({cur} + {e[2][1]})', 'char'
+            raise ExtractError(f'{self.fname}: memory access {e} not understood')
+        return Emitter({k: v for k, v in env.items() if v[1] in cmini.WIDTH}, index)
+
+    def unit(self, txt, ty):
+        """value stored into buf[...] (element of `bits` bits), as a Nat"""
+        if ty in ('char', 'uchar'):
+            if self.bits != 8:
+                return f'(({txt}).signExtend {self.bits}).toNat' if ty == 'char' else f'({txt}).toNat'
+            return f'({txt}).toNat'
+        w = cmini.WIDTH[ty]
+        return f'(({txt}).setWidth {self.bits}).toNat' if w != self.bits else f'({txt}).toNat'
+
+    ESC = ('call', 'read_escaped_char', [('un', '&', ('id', 'p')), ('bin', '+', ('id', 'p'), ('num', 1, ''))])
+    DEC = ('call', 'decode_utf8', [('un', '&', ('id', 'p')), ('id', 'p')])
+
+    def call(self, e, cur, k):
+        """k(value_text, value_type, new_cursor) -> text"""
+        if e == self.ESC:
+            body = k('v', 'i32', f'{cur} + 1 + n')
+            return f'match readEscapedChar (p.drop ({cur} + 1)) with\n| .error e => .error e\n| .ok (v, n) =>\n{indent(body)}'
+        if e == self.DEC:
+            if self.decode_err not in self.errors:
+                self.errors.append(self.decode_err)
+            body = k('v', 'u32', f'{cur} + n')
+            return f'match decodeUtf8 (p.drop ({cur})) with\n| .error _ => .error .{self.decode_err}\n| .ok (v, n) =>\n{indent(body)}'
+        raise ExtractError(f'{self.fname}: call {e} not understood')
+
+    def run(self, stmts, cur, env, tail):
+        if not stmts:
+            return tail(cur, env)
+        s, rest = stmts[0], stmts[1:]
+        k = s[0]
+        if k == 'block':
+            return self.run(list(s[1]) + rest, cur, env, tail)
+        if k == 'continue':
+            return tail(cur, env)
+        if k == 'if':
+            c = self.emitter(cur, env).cond(s[1])
+            a = self.run(unblock(s[2]) + rest, cur, dict(env), tail)
+            b = self.run(unblock(s[3]) + rest, cur, dict(env), tail)
+            return f'if {c} then\n{indent(a)}\nelse\n{indent(b)}'
+        if k == 'decl' and s[1] in ('uint32_t', 'int') and s[3] is not None and s[3][0] == 'call':
+            name, cty = s[2], LOCAL_TYPES[s[1]]
+            def kont(v, ty, ncur):
+                env2 = dict(env)
+                env2[name] = (v if ty == cty or cmini.WIDTH[ty] == cmini.WIDTH[cty] else None, cty)
+                return f'let {name} : BitVec 32 := {v}\n' + self.run(rest, ncur, {**env2, name: (name, cty)}, tail)
+            return self.call(s[3], cur, kont)
+        if k == 'decl' and s[1] == 'int' and s[3] is None:
+            env[s[2]] = (None, 'i32')
+            return self.run(rest, cur, env, tail)
+        if k == 'expr':
+            e = s[1]
+            # buf[len++] = RHS
+            if e[0] == 'assign' and e[1] == '=' and e[2] == ('idx', ('id', 'buf'), ('postinc', ('id', 'len'))):
+                rhs = e[3]
+                if rhs[0] == 'call':
+                    def kont(v, ty, ncur):
+                        return self.run([('__push__', self.unit(v, ty))] + rest, ncur, env, tail)
+                    return self.call(rhs, cur, kont)
+                if rhs == ('un', '*', ('postinc', ('id', 'p'))):
+                    return self.run([('__push__', self.unit(f'byteAt p ({cur})', 'char'))] + rest, f'{cur} + 1', env, tail)
+                txt, ty = self.emitter(cur, env).value(rhs)
+                return self.run([('__push__', self.unit(txt, ty))] + rest, cur, env, tail)
+            # c = CALL(&p, ..)  |  c op= E
+            if e[0] == 'assign' and e[2][0] == 'id' and e[2][1] in env and env[e[2][1]][1] in cmini.WIDTH:
+                name, cty = e[2][1], env[e[2][1]][1]
+                if e[1] == '=' and e[3][0] == 'call':
+                    def kont(v, ty, ncur):
+                        return f'let {name} : BitVec 32 := {v}\n' + self.run(rest, ncur, {**env, name: (name, cty)}, tail)
+                    return self.call(e[3], cur, kont)
+                rhs = e[3] if e[1] == '=' else ('bin', e[1][:-1], e[2], e[3])
+                txt, ty = self.emitter(cur, env).value(rhs)
+                em = self.emitter(cur, env)
+                return f'let {name} : BitVec 32 := {em.convert(txt, ty, cty)}\n' + self.run(rest, cur, {**env, name: (name, cty)}, tail)
+            if e[0] == 'call' and e[1] == 'error_at' and len(e[2]) >= 2 and e[2][1][0] == 'str':
+                c = err_ctor(e[2][1][1])
+                if c not in self.errors:
+                    self.errors.append(c)
+                return f'.error .{c}'
+        if k == '__push__':
+            body = self.run(rest, cur, env, tail)
+            return f'let acc := {s[1]} :: acc\n{body}'
+        raise ExtractError(f'{self.fname}: statement {s} not supported')
